@@ -272,7 +272,7 @@ pub fn explore<R: Send + Clone + 'static>(
     n: usize,
     bound: Option<usize>,
     cap: u64,
-    body: Arc<dyn Fn(usize, &Arc<Sched>) -> R + Send + Sync>,
+    make_body: &dyn Fn() -> Arc<dyn Fn(usize, &Arc<Sched>) -> R + Send + Sync>,
     visit: &mut dyn FnMut(&Execution<R>),
 ) -> (u64, bool) {
     let mut count = 0u64;
@@ -283,7 +283,8 @@ pub fn explore<R: Send + Clone + 'static>(
             capped = true;
             break;
         }
-        let x = run_once(n, &prefix, body.clone());
+        // every execution gets freshly built shared objects, so that nothing leaks between executions
+        let x = run_once(n, &prefix, make_body());
         count += 1;
         visit(&x);
         if x.divergence.is_some() {
